@@ -1,0 +1,26 @@
+//go:build verif
+
+// Contracts for the deductive verification machinery in /verif (comment-only; compiled only with -tags=verif).
+package middlewares
+
+//@ spec needs(method string) string = (method == "GET" || method == "HEAD" || method == "OPTIONS") ? "read" : "write"
+//@ spec isAdminAt(role string) bool = role == "admin"
+
+//@ unit middlewares.doAclCheck
+//@   prop C16
+//@   ghost aclG []*security.AccessControl
+//@   requires token != nil && typeof(token.Claims) == typeid("*security.CustomClaims")
+//@   ensures [admin] (exists k int :: 0 <= k && k < len(cast(token.Claims, "*security.CustomClaims").Roles) && cast(token.Claims, "*security.CustomClaims").Roles[k] == "admin") ==> result == nil
+//@   ensures [granted-only-by-entry] !(exists k int :: 0 <= k && k < len(cast(token.Claims, "*security.CustomClaims").Roles) && cast(token.Claims, "*security.CustomClaims").Roles[k] == "admin") && result == nil ==>
+//@     | (exists i int :: 0 <= i && i < len(aclG) && aclApplies(aclG[i].Resource, aclG[i].Action, path, needs(method)) && !aclG[i].Deny)
+//@   ensures [deny-overrides] !(exists k int :: 0 <= k && k < len(cast(token.Claims, "*security.CustomClaims").Roles) && cast(token.Claims, "*security.CustomClaims").Roles[k] == "admin") && result == nil ==>
+//@     | !(exists i int :: 0 <= i && i < len(aclG) && aclApplies(aclG[i].Resource, aclG[i].Action, path, needs(method)) && aclG[i].Deny)
+//@   ensures [granted-if-entry] (exists i int :: 0 <= i && i < len(aclG) && aclApplies(aclG[i].Resource, aclG[i].Action, path, needs(method)))
+//@     | && !(exists i int :: 0 <= i && i < len(aclG) && aclApplies(aclG[i].Resource, aclG[i].Action, path, needs(method)) && aclG[i].Deny) ==> result == nil
+//@   safe typeassert index
+//@   at call GetAccessControls#1
+//@     ghost aclG := acl
+//@   loop 1
+//@     invariant -1 <= $i && $i < len(roles)
+//@     invariant forall k int :: 0 <= k && k <= $i ==> roles[k] != "admin"
+//@     decreases len(roles) - $i
